@@ -21,17 +21,21 @@ pub struct HashMap<K, V> {
     vals: [MaybeUninit<V>; CAP],
 }
 
-impl<K: Clone, V: Clone> Clone for HashMap<K, V> {
-    /// Slot-wise clone through the element types' own `Clone` (a bitwise `ptr::read` of slots that
-    /// live in a heap object is mis-modelled by CBMC when the content is symbolic).
+impl<K, V> Clone for HashMap<K, V> {
+    /// Slot-wise bitwise copy of the occupied slots (keys and values are never dropped, so a bitwise
+    /// copy is a clone for the purposes of a bounded run; typed element reads, not a whole-struct
+    /// `ptr::read` over the `MaybeUninit` unions).
     fn clone(&self) -> Self {
         let mut m = Self::default();
+        m.last = self.last;
         let mut i = 0;
         while i < CAP {
             if self.used[i] {
                 m.used[i] = true;
-                m.keys[i].write(self.key(i).clone());
-                m.vals[i].write(self.val(i).clone());
+                unsafe {
+                    m.keys[i].write(std::ptr::read(self.keys[i].as_ptr()));
+                    m.vals[i].write(std::ptr::read(self.vals[i].as_ptr()));
+                }
             }
             i += 1;
         }
